@@ -188,7 +188,7 @@ pub async fn scenario(w: World, h: Hist, trace: bool) -> Outcome {
                 q.push_back(*seq);
             }
         }
-        sim.sleep(2 * MS).await;
+        settle_net(&w).await;
     }
     // ---- what did readers get
     let mut check = |who: &str, ids: &[(u32, u32)], out: &mut Outcome| -> bool {
